@@ -125,9 +125,11 @@ class Parameters:
         if self.delay.delay_until is not None and self.delay.delay_until > now:
             return self.delay.delay_until
         if self.delay.defer_by is not None:
-            defer_by_times = (now - self.timestamp) // self.delay.defer_by + 1
+            # the period grid is anchored at the previous slot, when there is one
+            base = self.delay.delay_until if self.delay.delay_until is not None else self.timestamp
+            defer_by_times = (now - base) // self.delay.defer_by + 1
             time_offset = self.delay.defer_by * defer_by_times
-            return self.timestamp + time_offset
+            return base + time_offset
         if self.delay.cron is not None:
             if not CRON_SUPPORT:
                 raise ImportError("Croniter is not installed.")  # pragma: no cover
@@ -137,7 +139,12 @@ class Parameters:
     def _prepare_reschedule(self) -> "Parameters":
         copy = deepcopy(self)
         object.__setattr__(copy.retries, "already_tried", 0)
-        object.__setattr__(copy.delay, "next_execution_time", self.compute_next_execution_time)
+        next_execution_time = self.compute_next_execution_time
+        object.__setattr__(copy.delay, "next_execution_time", next_execution_time)
+        if copy.delay.defer_by is not None:
+            # keep the cadence steady: `timestamp` is reset below (it restarts the time-to-live),
+            # so the next slot is remembered as the anchor of the period grid
+            object.__setattr__(copy.delay, "delay_until", next_execution_time)
         object.__setattr__(copy, "timestamp", datetime.now())
         return copy
 
